@@ -108,7 +108,7 @@ impl<Req, Res, E> AdaptiveService<Req, Res, E> {
             final(tr).obs_inflight->0 < final(tr).obs_limit->0 ==> final(self).inner.polls@ == old(self).inner.polls@ + 1 && (r is Pending ==> !final(self).inner.ready@ || old(self).inner.ready@),   // #never_refuses_below_the_limit_on_its_own [C13]
             r matches Poll::Ready(Ok(_)) ==> final(self).inner.ready@ && final(tr).obs_inflight->0 < final(tr).obs_limit->0,   // #ready_only_when_inner_ready_and_below_limit [C13,C20]
             r matches Poll::Ready(Err(e)) ==> e is Service,   // #readiness_errors_surface_as_inner [C20]
-            final(self).in_flight == old(self).in_flight && final(self).algorithm == old(self).algorithm,   // #frame
+            final(self).in_flight == old(self).in_flight && final(self).algorithm == old(self).algorithm,   // #shared_state_handles_and_configuration_are_left_untouched [C13]
     //@body AdaptiveService::poll_ready@Service
 
     pub fn call(&mut self, req: Req, clk: &mut Clock, Tracked(tr): Tracked<&mut Trace<Req, Res, E>>) -> (result: Result<Res, AdaptiveError<E>>)
@@ -120,7 +120,7 @@ impl<Req, Res, E> AdaptiveService<Req, Res, E> {
             result matches Err(AdaptiveError::Service(e)) ==> final(tr).last_done == Some(Err::<Res, E>(e)),   // #inner_error_returned_unchanged [C20]
             !(result matches Err(AdaptiveError::LimitReached)),   // #call_itself_never_rejects [C20]
             final(tr).notes.len() == 1 && final(tr).notes[0] == (Note::Feedback { success: final(tr).last_done->0 is Ok }),   // #feeds_the_outcome_to_the_algorithm_once [C13]
-            final(self).in_flight == old(self).in_flight && final(self).algorithm == old(self).algorithm,   // #frame
+            final(self).in_flight == old(self).in_flight && final(self).algorithm == old(self).algorithm,   // #shared_state_handles_and_configuration_are_left_untouched [C13]
     //@body AdaptiveService::call@Service
 }
 fn main() {}
